@@ -6,26 +6,37 @@
    points of the verif-hooks build sit exactly between them):
 
      resolve(k, name)                                              store.rs
-       R1  lock cache; cache.resolve -> hit: answer, done          :116-125, :259-274
+       R1  lock cache; cache.resolve -> hit: answer, done          :117-127, :265-280
            miss (no zone, or no such record in the zone):
-           remember the invalidation count; unlock                 :126-127
-           -- pause zonestore.resolve.after_check --               :129
-       R2  store.get(k)  (one message to the store actor)          :132
-           None: answer None, done (no DHT configured)             :165-181
-           -- pause zonestore.resolve.after_get --                 :135
-       R3  lock cache; if no invalidation since R1:                :136-138
-             ZoneCache::insert (skip if cached timestamp is newer) :303-322
-             answer from the cache                                 :276-285
-           else answer from the packet, do not cache it; unlock    :139-145
+           remember the invalidation count; unlock                 :128-129
+           -- pause zonestore.resolve.after_check --               :131
+       R2  store.get(k)  (one message to the store actor)          :134
+           None: answer None, done (no DHT configured)             :169-185
+           -- pause zonestore.resolve.after_get --                 :137
+       R3  lock cache; if no invalidation since R1:                :138-142
+             ZoneCache::insert (skip if cached timestamp is newer) :309-328
+             answer from the cache                                 :282-291
+           else answer from the packet, do not cache it; unlock    :143-149
      insert(p)
        P1  store.upsert(p) (one message to the store actor;
-           replaces unless the stored packet is more recent)       :205, signed_packets.rs:163-197
-           not an update: acknowledge false, done                  :211-214
-           -- pause zonestore.insert.after_upsert --               :208
+           replaces unless the stored packet is more recent)       :209, signed_packets.rs:163-197
+           not an update: acknowledge false, done                  :215-218
+           -- pause zonestore.insert.after_upsert --               :212
        P2  lock cache; remove(k); count the invalidation; unlock;
-           acknowledge true                                        :209-210, :324-333
+           acknowledge true                                        :213-214, :328-337
      get_signed_packet(k)
-       G1  store.get(k)                                            :190
+       G1  store.get(k)                                            :194
+
+   Lock layer (holder / waiters below): the two cache lock scopes of resolve carry a
+   further pause point INSIDE the scope, right after the lock is taken
+   (zonestore.resolve.in_cache_check :119-120, zonestore.resolve.in_cache_fill :139-140).
+   A schedule entry (i, true) lets resolve i take the cache lock and parks it there
+   (OPark 4 / OPark 5); its next entry runs the body of the scope and unlocks.  While a
+   task is parked inside a scope, R1, R3 and P2 of every other task are DISABLED
+   (tokio::sync::Mutex: `lock().await` does not return): the entry is observed as OBlocked
+   and the task joins the FIFO queue of the mutex; R2, P1, G1 stay enabled.  When the
+   holder leaves its scope the queued tasks run their locked step in queue order
+   (tokio's mutex is fair), each giving one more event.
 
    [fx = false] is the code before the fix (no invalidation count: R3 always
    inserts).  The LRU bound (2^20 zones) and the DHT cache are not modelled; the
@@ -72,7 +83,9 @@ Inductive pc :=
 
 Inductive obs :=
 | OSkip                          (* schedule entry for a finished / non-existent task *)
-| OPark (pt : N)                 (* ran up to pause point pt: 1 after_check, 2 after_get, 3 after_upsert *)
+| OPark (pt : N)                 (* ran up to pause point pt: 1 after_check, 2 after_get, 3 after_upsert,
+                                    4 in_cache_check, 5 in_cache_fill (parked holding the cache lock) *)
+| OBlocked                       (* did not complete: waits for the cache lock held by a parked task *)
 | ODoneR (a : option N)          (* resolve returned: TXT value *)
 | ODoneP (u : bool)              (* insert returned: was an update *)
 | ODoneG (r : option (N * N * N))  (* get_signed_packet returned: (timestamp, name, value) *)
@@ -146,27 +159,97 @@ Definition step (fx : bool) (tasks : list task) (s : st) (i : nat) : st * obs :=
     end
   end.
 
-Fixpoint run (fx : bool) (tasks : list task) (s : st) (sched : list nat) : list obs :=
-  match sched with
-  | [] => []
-  | i :: r => let '(s', o) := step fx tasks s i in o :: run fx tasks s' r
-  end.
-
 Definition init : st := mkSt (fun _ => None) (fun _ => None) 0 (fun _ => Start).
 
-(* after the given schedule every task is run to completion, in index order *)
-Definition drain (n : nat) : list nat := concat (map (fun i => [i; i; i]%list) (seq 0 n)).
-Definition full_sched (tasks : list task) (sched : list nat) : list nat :=
-  (sched ++ drain (length tasks))%list.
+(* ---------- the cache mutex: a task parked inside a lock scope, and the queue behind it ---------- *)
+Record xst := mkX {
+  base : st;
+  holder : option nat;        (* resolve parked at in_cache_check / in_cache_fill, holding the lock *)
+  waiters : list nat }.       (* tasks whose `cache.lock().await` is pending, oldest first *)
 
-Definition input := (list task * list nat)%type.
-Definition output := list obs.
+Definition live (tasks : list task) (s : st) (i : nat) : bool :=
+  match nth_error tasks i with
+  | None => false
+  | Some _ => match pcs s i with Finished => false | _ => true end
+  end.
+
+(* the next step of task i takes the cache lock *)
+Definition needs_lock (tasks : list task) (s : st) (i : nat) : bool :=
+  match nth_error tasks i, pcs s i with
+  | Some (TResolve _ _), Start => true
+  | Some (TResolve _ _), RGot _ _ => true
+  | Some (TPublish _), PUpserted => true
+  | _, _ => false
+  end.
+
+(* ... and has a pause point inside its lock scope (only resolve's two scopes do) *)
+Definition hold_point (tasks : list task) (s : st) (i : nat) : option N :=
+  match nth_error tasks i, pcs s i with
+  | Some (TResolve _ _), Start => Some 4
+  | Some (TResolve _ _), RGot _ _ => Some 5
+  | _, _ => None
+  end.
+
+Definition event := (nat * obs)%type.
+
+(* the queued tasks get the lock one after the other and run their locked step *)
+Fixpoint wake (fx : bool) (tasks : list task) (s : st) (ws : list nat) : st * list event :=
+  match ws with
+  | [] => (s, [])
+  | w :: r =>
+      let '(s1, o) := step fx tasks s w in
+      let '(s2, evs) := wake fx tasks s1 r in
+      (s2, (w, o) :: evs)
+  end.
+
+(* one schedule entry (task, park inside the lock scope if the step has one) *)
+Definition xstep (fx : bool) (tasks : list task) (x : xst) (e : nat * bool) : xst * list event :=
+  let '(i, hold) := e in
+  let s := base x in
+  if negb (live tasks s i) then (x, [(i, OSkip)])
+  else if existsb (Nat.eqb i) (waiters x) then (x, [(i, OBlocked)])       (* still queued *)
+  else
+    match holder x with
+    | Some j =>
+        if Nat.eqb i j then
+          (* body of the lock scope, unlock, hand the lock down the queue *)
+          let '(s1, o) := step fx tasks s i in
+          let '(s2, evs) := wake fx tasks s1 (waiters x) in
+          (mkX s2 None [], (i, o) :: evs)
+        else if needs_lock tasks s i then
+          (mkX s (Some j) (waiters x ++ [i]), [(i, OBlocked)])             (* DISABLED: lock is held *)
+        else
+          let '(s1, o) := step fx tasks s i in (mkX s1 (Some j) (waiters x), [(i, o)])
+    | None =>
+        match (if hold then hold_point tasks s i else None) with
+        | Some pt => (mkX s (Some i) (waiters x), [(i, OPark pt)])         (* lock taken, parked inside *)
+        | None => let '(s1, o) := step fx tasks s i in (mkX s1 None (waiters x), [(i, o)])
+        end
+    end.
+
+Fixpoint xrun (fx : bool) (tasks : list task) (x : xst) (sched : list (nat * bool)) : list event :=
+  match sched with
+  | [] => []
+  | e :: r => let '(x', evs) := xstep fx tasks x e in (evs ++ xrun fx tasks x' r)%list
+  end.
+
+Definition xinit : xst := mkX init None [].
+
+(* after the given schedule every task is run to completion, in index order; two passes, because
+   in the first one a task may queue behind a holder with a larger index *)
+Definition drain (n : nat) : list (nat * bool) :=
+  concat (map (fun i => [(i, false); (i, false); (i, false)]%list) (seq 0 n)).
+Definition full_sched (tasks : list task) (sched : list (nat * bool)) : list (nat * bool) :=
+  (sched ++ drain (length tasks) ++ drain (length tasks))%list.
+
+Definition input := (list task * list (nat * bool))%type.
+Definition output := list event.
 
 (* the code as it is now (with the fix) *)
 Definition FIXED := true.
 
 Definition model_fx (fx : bool) (i : input) : output :=
-  let '(tasks, sched) := i in run fx tasks init (full_sched tasks sched).
+  let '(tasks, sched) := i in xrun fx tasks xinit (full_sched tasks sched).
 Definition model : input -> output := model_fx FIXED.
 
 Definition triple_eqb (x y : N * N * N) : bool :=
@@ -176,6 +259,7 @@ Definition obs_eqb (x y : obs) : bool :=
   match x, y with
   | OSkip, OSkip => true
   | OPark a, OPark b => a =? b
+  | OBlocked, OBlocked => true
   | ODoneR a, ODoneR b => opt_eqb N.eqb a b
   | ODoneP a, ODoneP b => Bool.eqb a b
   | ODoneG a, ODoneG b => opt_eqb triple_eqb a b
@@ -183,7 +267,11 @@ Definition obs_eqb (x y : obs) : bool :=
   | _, _ => false
   end.
 
-Definition agree (i : input) (o : output) : bool := list_eqb obs_eqb (model i) o.
+Definition event_eqb (x y : event) : bool := Nat.eqb (fst x) (fst y) && obs_eqb (snd x) (snd y).
+
+(* the implementation went through the same steps, blocked exactly where the model's step is
+   disabled, and the queued steps completed when (and in the order in which) the model says *)
+Definition agree (i : input) (o : output) : bool := list_eqb event_eqb (model i) o.
 
 (* ---- the property as a function of an observed run ----
    A lookup is *after* a publish when its first step comes after the step in
@@ -225,18 +313,19 @@ Definition mon_step (tasks : list task) (m : mst) (i : nat) (o : obs) : option m
       end
   end.
 
-Fixpoint mon_run (tasks : list task) (m : mst) (sched : list nat) (os : list obs) : bool :=
-  match sched, os with
-  | i :: r, o :: os' =>
+Fixpoint mon_run (tasks : list task) (m : mst) (l : list event) : bool :=
+  match l with
+  | [] => true
+  | (i, o) :: r =>
       match mon_step tasks m i o with
-      | Some m' => mon_run tasks m' r os'
+      | Some m' => mon_run tasks m' r
       | None => false
       end
-  | _, _ => true
   end.
 
+(* the observed run is a list of (task, observation) events in real-time order *)
 Definition monitor (i : input) (o : output) : bool :=
-  let '(tasks, sched) := i in mon_run tasks minit (full_sched tasks sched) o.
+  let '(tasks, _) := i in mon_run tasks minit o.
 
 (* Known-finding classes: none after the fix. *)
 Definition known (i : input) : N := 0.
@@ -274,14 +363,28 @@ Definition step_tag (tasks : list task) (s : st) (i : nat) : N :=
     end
   end.
 
-Fixpoint run_tag (tasks : list task) (s : st) (sched : list nat) : N :=
+(* 5 a locked step of a lookup was blocked behind a task parked inside its lock scope
+   6 the cache invalidation of a publish was blocked behind a lookup parked inside its lock scope *)
+Definition xstep_tag (tasks : list task) (x : xst) (e : nat * bool) : N :=
+  let i := fst e in
+  match holder x with
+  | Some j =>
+      if negb (Nat.eqb i j) && live tasks (base x) i && needs_lock tasks (base x) i
+         && negb (existsb (Nat.eqb i) (waiters x)) then
+        match nth_error tasks i with Some (TPublish _) => 6 | _ => 5 end
+      else if existsb (Nat.eqb i) (waiters x) then 0
+      else step_tag tasks (base x) i
+  | None => step_tag tasks (base x) i
+  end.
+
+Fixpoint xrun_tag (tasks : list task) (x : xst) (sched : list (nat * bool)) : N :=
   match sched with
   | [] => 0
-  | i :: r => N.max (step_tag tasks s i) (run_tag tasks (fst (step FIXED tasks s i)) r)
+  | e :: r => N.max (xstep_tag tasks x e) (xrun_tag tasks (fst (xstep FIXED tasks x e)) r)
   end.
 
 Definition tag (i : input) : N :=
-  let '(tasks, sched) := i in run_tag tasks init (full_sched tasks sched).
+  let '(tasks, sched) := i in xrun_tag tasks xinit (full_sched tasks sched).
 
 Definition judge (i : input) (o : output) : bool * bool * N * N :=
   (agree i o, monitor i o, known i, tag i).
